@@ -1,7 +1,7 @@
 #!/bin/sh
 # stale_seeded.sh: list seeded/<dir> whose meta.json was produced by an older harness (sim/ or check changed since)
 cd "$(dirname "$0")/.."
-cur=$(git log -1 --format=%h -- sim check)
+cur=$(git log -1 --format=%h -- sim/checks sim/worlds sim/hx sim/simkern sim/weave sim/overlay_src)
 for d in seeded/*/; do
   m=$d/meta.json
   h=$(python3 -c "import json,sys;print(json.load(open('$m')).get('harness_commit',''))" 2>/dev/null)
